@@ -1178,6 +1178,11 @@ func boundedByInput(v *Val, conds []Cond) (bool, string) {
 			for o.Op == "conv" {
 				o = stripCT(o.Args[0])
 			}
+			// what the comparison says about the claimed value holds over the integers only if the compared expression
+			// cannot wrap: `n*recordSize > uint32(buf.Len())` computed in uint32 lets a large n through
+			if !wrapFreeGuard(cv.Args[side]) {
+				continue
+			}
 			if _, div := lenOverConst(o); div {
 				// v <= buf.Len()/k implies v <= buf.Len()
 				if saysAtMost(c, side) && affOf(stripIntConv(cv.Args[side])).Equal(affOf(stripIntConv(v))) && !affOf(stripIntConv(v)).Top {
@@ -1979,4 +1984,78 @@ func genericRoot(fn *ssa.Function) bool {
 		}
 	}
 	return false
+}
+
+
+// wrapFreeGuard: the expression (one side of an availability comparison) is computed without the possibility of a
+// wrap-around as far as values off the wire are concerned: no product, sum or shift of a wire-derived value in an
+// integer type narrower than 64 bits, and no conversion of a wire-derived value to a type narrower than the one it has.
+func wrapFreeGuard(v *Val) bool {
+	ok := true
+	fromWire := func(x *Val) bool {
+		return x != nil && x.Contains(func(y *Val) bool { return y.Op == "wire" || y.Op == "short" || y.Op == "bufbytes" || y.Op == "bufnext" })
+	}
+	v.Walk(func(x *Val) bool {
+		if !ok {
+			return false
+		}
+		switch x.Op {
+		case "binop":
+			switch x.Name {
+			case "*", "+", "<<":
+				if !fromWire(x) {
+					return true
+				}
+				bits, known := intBits2(x.Type)
+				if !known {
+					for _, a := range x.Args {
+						if a != nil && a.Type != nil {
+							if b2, k2 := intBits2(a.Type); k2 && (bits == 0 || b2 < bits) {
+								bits, known = b2, true
+							}
+						}
+					}
+				}
+				if known && bits < 64 {
+					// a narrow product is harmless when the factors themselves are narrow enough: u16 * const in u32
+					if x.Name == "*" && len(x.Args) == 2 {
+						for i := 0; i < 2; i++ {
+							if k, isC := x.Args[i].Int64(); isC && k > 0 {
+								inner := stripCT(x.Args[1-i])
+								for inner.Op == "conv" && len(inner.Args) == 1 {
+									src := stripCT(inner.Args[0])
+									sb, sk := intBits2(src.Type)
+									tb, tk := intBits2(inner.Type)
+									if !sk || !tk || tb < sb {
+										break
+									}
+									inner = src
+								}
+								if ib, ik := intBits2(inner.Type); ik && ib < bits {
+									lim := int64(1) << uint(bits-ib)
+									if k <= lim {
+										return true
+									}
+								}
+							}
+						}
+					}
+					ok = false
+					return false
+				}
+			}
+		case "conv":
+			if len(x.Args) == 1 && fromWire(x.Args[0]) {
+				src := stripCT(x.Args[0])
+				sb, sk := intBits2(src.Type)
+				tb, tk := intBits2(x.Type)
+				if sk && tk && tb < sb {
+					ok = false
+					return false
+				}
+			}
+		}
+		return true
+	})
+	return ok
 }
